@@ -345,6 +345,83 @@ class LRUDriver:
         return None
 
 
+class OSetSeqDriver:
+    """walks of NextOSet on ONE OrderedSet per walk"""
+
+    def __init__(self, universe):
+        from sqlalchemy.util import OrderedSet
+        self.OrderedSet, self.universe = OrderedSet, universe
+        self.in_step = True
+
+    def reset(self, state):
+        self.t = self.OrderedSet(state)
+
+    def step(self, frm, act, to):
+        t, op, exp = self.t, act["op"], act["exp"]
+        old = list(t)
+        exc, rk, ret = pc.perform("oset", t, op, mkself=self.OrderedSet)
+        got = list(t)
+        self.in_step = got == list(to)
+        m = pc.outcome_mismatch("oset", exp, exc, rk, ret, got, old)
+        if m:
+            return "outcome", "OrderedSet %r .%s(%r as %s): %s" % (old, op["n"], op["v"] or op["b"], op["kd"] or "-", m)
+        members = sorted(x for x in self.universe if x in t)
+        if len(t) != len(got) or members != sorted(got):
+            return "internal", "OrderedSet after %s: iteration %r, len %d, membership %r" % (op["n"], got, len(t), members)
+        return None
+
+    def finish(self, state):
+        # drain: pop everything; the elements must come back in reverse insertion order and the set must end empty
+        t = self.t
+        out = []
+        while len(t):
+            out.append(t.pop())
+        if out != list(reversed(state)) or list(t) != []:
+            return "internal", "drain: pop() sequence %r, expected %r" % (out, list(reversed(state)))
+        return None
+
+
+class IdSetSeqDriver:
+    """walks of NextSet on ONE IdentitySet per walk (set-typed arguments are passed as IdentitySet)"""
+
+    def __init__(self, universe):
+        from sqlalchemy.util import IdentitySet
+        self.IdentitySet = IdentitySet
+        self.objs = {i: _E(i) for i in universe}
+        self.in_step = True
+
+    def reset(self, state):
+        self.lab = dict((i, o) for i, o in self.objs.items())
+        self.t = self.IdentitySet([self.lab[x] for x in state])
+
+    def _label(self, o):
+        for k, v in self.lab.items():
+            if v is o:
+                return k
+
+    def step(self, frm, act, to):
+        t, op, exp = self.t, act["op"], act["exp"]
+        if op["n"] == "assign":
+            self.t = t = self.IdentitySet([self.lab[x] for x in op["v"]])
+            return None
+        op = dict(op, kd="self" if op["kd"] == "set" else op["kd"])
+        old = sorted(self._label(x) for x in t)
+        exc, rk, ret = pc.perform("set", t, op, item=self.lab.__getitem__, label=self._label, mkself=self.IdentitySet)
+        if op["n"] == "pop" and exc == "none" and ret != op["b"] and ret in old:
+            x, y = op["b"], ret
+            self.lab[x], self.lab[y] = self.lab[y], self.lab[x]
+            ret = x
+        got = sorted(self._label(x) for x in t)
+        self.in_step = got == sorted(to)
+        m = pc.outcome_mismatch("set", exp, exc, rk, ret, got, old)
+        if m:
+            return "outcome", "IdentitySet %r .%s(%r as %s): %s" % (old, op["n"], op["v"] or op["b"], op["kd"] or "-", m)
+        members = sorted(i for i, o in self.lab.items() if o in t)
+        if len(t) != len(got) or members != got:
+            return "internal", "IdentitySet after %s: iteration %r, len %d, membership %r" % (op["n"], got, len(t), members)
+        return None
+
+
 def _main(argv):
     from engine import purepy
     purepy.install()
